@@ -33,13 +33,14 @@ META = {
 
 TEST_FRAMES = ["8D406B902015A678D4D220AA4BDA", "8D4840D6202CC371C32CE0576098", "A0001838CA3E51F0A8000047A36A",
                "A800292DFFBBA9383FFCEB903D01", "5D484FDEA248F5", "2A00516D492B80", "20001718029FCD", "28001A1B1D8FF2",
-               "5D484BA898F8C6"]        # index 4: DF11 all-call reply with an interrogator code in the parity (remainder != 0)
+               "5D484BA898F8C6", "A000083E202CC371C32CE0576090", "2000171806A980"]
+# ... index 4 is an all-call reply with an interrogator code in the parity (remainder != 0)
 
 
 def items(tier, seed):
     rnd = random.Random(seed)
     out = []
-    cfgs = [([0], 0), ([4], 1), ([2], 0)] if tier == "quick" else \
+    cfgs = [([0], 0), ([4], 1), ([2], 0), ([9], 1), ([10], 0)] if tier == "quick" else \
         [([k], o) for k in range(len(TEST_FRAMES)) for o in (0, 1)] + [([0, 4], 0), ([2, 1], 1), ([5, 3], 0)]
     for k, (frames, off) in enumerate(cfgs):
         out.append(("demod-%s-off%d" % ("_".join(map(str, frames)), off), {"frames": frames, "off": off, "weight": len(frames)}))
